@@ -393,6 +393,24 @@ def run (ctx):
   known = [n for n in g.nodes if n.kind == 'return' and any('originatorDPID not in core.openflow.connections' in f for f in q.fact_strs(g, n))]
   ctx.ob('R-DOM', pin, "probes from unknown switches create no link", bool(known), "return when the sender is not connected", pin, 'D2')
 
+  # a ConnectionDown can be that of a *stale* connection: a datapath that reconnected before its old connection closed stays
+  # registered under the newer connection (of_01), and the event for the old one comes later.  A handler that withdraws what it
+  # knows about `event.dpid` first makes sure the connection that went down is the one registered for that dpid
+  n_down = 0
+  for c_ in (snd, disc):
+    h_ = c_.methods.get('_handle_openflow_ConnectionDown') or c_.methods.get('_handle_ConnectionDown')
+    if h_ is None: continue
+    ctx.analysed(h_); gd_ = q.cfg_of(h_); ev_ = h_.params[1] if len(h_.params) > 1 else 'event'
+    wd_ = [n_ for n_ in gd_.nodes if any(call_name(x_) in ('del_switch', '_delete_links') for x_ in q.node_calls(n_))]
+    for n_ in wd_:
+      n_down += 1
+      fs_ = q.fact_strs(gd_, n_)
+      good = any(('getConnection' in f_ or 'connections' in f_) and (ev_ + '.connection') in f_ for f_ in fs_)
+      ctx.ob('R-DOM', h_, "state of `%s.dpid` is withdrawn only when the connection that went down is the registered one" % ev_, good,
+             "guarded by a comparison of the registry entry with %s.connection" % ev_ if good else
+             "`%s` runs for every ConnectionDown of the dpid (facts %s): when a switch reconnects before its stale connection closes, the later ConnectionDown of the stale one removes the live connection's probe items / links - "
+             "no probe leaves that switch any more, its links expire and are never re-discovered" % (n_.text(50), fs_[-2:]), (dmod, n_.ast), 'D1')
+  ctx.floor('ConnectionDown withdrawal sites in discovery', n_down, 2)
   # ---- D3 flood bits ------------------------------------------------------------------------------------
   ut = smod.funcs.get('_update_tree'); cst = smod.funcs.get('_calc_spanning_tree')
   if ut is None or cst is None: raise AnalysisError("spanning_tree._update_tree/_calc_spanning_tree vanished")
